@@ -1,8 +1,13 @@
 #!/bin/sh
-# tools/try_seed.sh <patch> <prop> [check args...] : apply a seeded patch to /repo, run the check, always revert.
+# tools/try_seed.sh <patch> <prop> [check args...] : apply a seeded patch to /repo (with fuzz: /repo carries fix commits),
+# run the check, always revert.
 P=$1; shift; PROP=$1; shift
-git -C /repo apply "$P" || { echo "PATCH DOES NOT APPLY"; exit 9; }
+cd /repo
+if ! git apply "$P" 2>/dev/null; then
+  patch -p1 --fuzz=3 -s < "$P" || { echo "PATCH DOES NOT APPLY"; git checkout -- .; find . -name "*.orig" -o -name "*.rej" | xargs rm -f; exit 9; }
+fi
+cd /verif
 /verif/check "$PROP" "$@" 2>&1 | grep -v "^Traceback\|^  File\|^    " | tail -${TAILN:-8}
-RC=$?
 git -C /repo checkout -- .
+find /repo -name "*.orig" -o -name "*.rej" | xargs rm -f
 git -C /repo status --short | grep -v '^??' | head -3
